@@ -292,3 +292,93 @@ func ZZ_C12_H3() {
 	}
 	zz.Assert("own-group-middleware-not-the-siblings", same)
 }
+
+var zzMethods = []string{"GET", "POST", "PUT", "PATCH", "HEAD", "OPTIONS", "DELETE", "CONNECT", "TRACE"}
+
+// ZZ_C12_H4: routes registered for every method at once (Any) under engine and group
+// middleware, and custom not-found / method-not-allowed handlers installed before or after the
+// engine middleware: whatever the request method, the middleware is entered exactly once, outermost
+// first, before the route's own handler; the custom 404/405 handlers run after the engine
+// middleware registered at any time.
+func ZZ_C12_H4() {
+	nUse := zz.Range("engineUses", 1, 2)
+	noRouteAt := zz.Choose("noRouteAt", 3) // 0 default, 1 before Use, 2 after Use
+	noMethodAt := zz.Choose("noMethodAt", 3)
+	req := zz.Choose("request", 3) // 0 matched (Any), 1 unmatched, 2 wrong method on a GET-only route
+	method := zzMethods[zz.Choose("method", len(zzMethods))]
+	var tr []int
+	mk := func(id int) app.HandlerFunc {
+		return func(c context.Context, ctx *app.RequestContext) {
+			tr = append(tr, id)
+			ctx.Next(c)
+		}
+	}
+	e := zzNewEngine()
+	if noRouteAt == 1 {
+		e.NoRoute(mk(400))
+	}
+	if noMethodAt == 1 {
+		e.NoMethod(mk(500))
+	}
+	var mw []int
+	for i := 0; i < nUse; i++ {
+		e.Use(mk(100 + i))
+		mw = append(mw, 100+i)
+	}
+	if noRouteAt == 2 {
+		e.NoRoute(mk(400))
+	}
+	if noMethodAt == 2 {
+		e.NoMethod(mk(500))
+	}
+	g := e.Group("/g", mk(150))
+	g.Any("/any", mk(200))
+	g.GET("/get", mk(201))
+	ctx := app.NewContext(0)
+	ctx.Request.SetHost("h")
+	switch req {
+	case 0:
+		ctx.Request.SetRequestURI("/g/any")
+		ctx.Request.Header.SetMethod(method)
+	case 1:
+		ctx.Request.SetRequestURI("/nope")
+		ctx.Request.Header.SetMethod(method)
+	case 2:
+		ctx.Request.SetRequestURI("/g/get")
+		if method == "GET" {
+			method = "POST"
+		}
+		ctx.Request.Header.SetMethod(method)
+	}
+	e.ServeHTTP(context.Background(), ctx)
+	zz.Cover("reached-assert", true)
+	want := append([]int(nil), mw...)
+	switch req {
+	case 0:
+		want = append(want, 150, 200)
+	case 1:
+		if noRouteAt != 0 {
+			want = append(want, 400)
+		}
+	case 2:
+		if noMethodAt != 0 {
+			want = append(want, 500)
+		}
+	}
+	same := len(tr) == len(want)
+	if same {
+		for i := range tr {
+			if tr[i] != want[i] {
+				same = false
+			}
+		}
+	}
+	switch req {
+	case 0:
+		zz.Assert("any-route-runs-middleware-once-then-handler-for-every-method", same)
+	case 1:
+		zz.Assert("not-found-runs-engine-middleware-then-custom-handler", same)
+	case 2:
+		zz.Assert("method-not-allowed-runs-engine-middleware-then-custom-handler", same)
+	}
+}
